@@ -162,9 +162,13 @@ def perm_tempo_job():
     return Job('C08', 'permute:tempo.detection[estimated tempi]', build, body, funcs=spec.funcs)
 
 
-def perm_patterns_job(spec, size):
+def perm_patterns_job(spec, size, n=None):
+    """n: value of the `n` keyword of the first-n scores (they look at the first n *estimated* patterns; the reference list is a set)"""
     def build(ctx):
-        return spec.build(ctx, size)
+        inp = spec.build(ctx, size)
+        if n is not None:
+            inp['kw'] = dict(inp['kw'], n=n)
+        return inp
 
     def body(A, inp):
         r1 = spec.call(inp)
@@ -173,7 +177,7 @@ def perm_patterns_job(spec, size):
         for i, (nm, kind) in enumerate(spec.outs):
             A.observe(nm, r1[i])
             A.require(A.eq(r1[i], r2[i]), '%s.%s:unchanged-by-order-of-reference-patterns' % (spec.name, nm))
-    return Job('C08', 'permute-reference-patterns:%s[%s]' % (spec.name, 'x'.join(map(str, size))), build, body, funcs=spec.funcs, timeout_s=1500)
+    return Job('C08', 'permute-reference-patterns:%s[%s%s]' % (spec.name, 'x'.join(map(str, size)), '' if n is None else ',n=%d' % n), build, body, funcs=spec.funcs, timeout_s=1500)
 
 
 def relabel_job(spec, size):
@@ -259,6 +263,11 @@ def jobs(tier):
         js.append(perm_patterns_job(T.by_name(nm), (2, 1)))
         if not q:
             js.append(perm_patterns_job(T.by_name(nm), (2, 2)))
+    for nm in ('pattern.first_n_three_layer_P', 'pattern.first_n_target_proportion_R'):
+        js.append(perm_patterns_job(T.by_name(nm), (2, 1), n=1))
+        if not q:
+            js.append(perm_patterns_job(T.by_name(nm), (2, 2), n=1))
+            js.append(perm_patterns_job(T.by_name(nm), (2, 1)))
     for spec in T.structure_specs(tier):
         for size in spec.sizes[tier]:
             js.append(relabel_job(spec, size))
